@@ -34,6 +34,7 @@ impl SendStream {
 pub struct StoppedFut;
 impl StoppedFut { #[verifier::external_body] pub async fn resolved(self) -> (r: Result<u64>) { unimplemented!() } }
 pub struct SocketAddr { pub a: u64 }
+pub uninterp spec fn ack_bytes(c: Connection) -> Seq<u8>;
 pub struct Connection { pub peer: PeerId, pub orig: ConnectionOrigin, pub addr: u64, pub opened: Ghost<nat> }
 impl Connection {
     #[verifier::external_body] pub fn peer_id(&self) -> (r: PeerId) ensures r == self.peer { unimplemented!() }
@@ -44,6 +45,12 @@ impl Connection {
     pub async fn open_bi(&self) -> (r: Result<(SendStream, RecvStream)>)
         ensures r is Ok ==> r->Ok_0.0.pair == r->Ok_0.1.pair && r->Ok_0.0.o@.len() == 0 && !r->Ok_0.0.finished@ { unimplemented!() }
     #[verifier::external_body] pub fn clone(&self) -> (r: Connection) ensures r == *self { unimplemented!() }
+    // unidirectional streams (used only by the acknowledgement handshake)
+    #[verifier::external_body]
+    pub async fn open_uni(&self) -> (r: Result<SendStream>) ensures r is Ok ==> r->Ok_0.o@.len() == 0 && !r->Ok_0.finished@ { unimplemented!() }
+    // the first unidirectional stream the other side opened on this connection: `ack_bytes` is what it wrote there
+    #[verifier::external_body]
+    pub async fn accept_uni(&self) -> (r: Result<RecvStream>) ensures r is Ok ==> r->Ok_0.rem@ == ack_bytes(*self) { unimplemented!() }
 }
 // what a request / response carries as local metadata: only the PeerId entry matters here
 pub trait ExtValue { spec fn as_peer(&self) -> Option<PeerId>; }
@@ -117,6 +124,19 @@ def build(C):
             && final(self).head.headers == old(self).head.headers && final(self).head.version == old(self).head.version && final(self).body == old(self).body, // @OBL Response::extensions_mut::only_extensions [C01,C02] extensions_mut() gives access to the extensions and nothing else of the response
 ''')
     t += '}\n'
+    # ---- the acknowledgement handshake (wire.rs handshake): C03 / C10 mechanism ------------------------------------------
+    t += C.fn('crates/anemo/src/network/wire.rs', 'fn handshake', 'handshake', ['C03', 'C10', 'C07'], ret='r',
+              rewrites=[dict(rule='X5', pattern='crate::connection::Connection', repl='Connection'), dict(rule='X5', pattern='crate::ConnectionOrigin', repl='ConnectionOrigin'),
+                        dict(rule='X5', pattern='.stopped().await', repl='.stopped().resolved().await', optional=True)],
+              inserts=[
+                  ('X6', 'send_stream.finish()?;', '''
+            assert(send_stream.o@ == preamble(Version::V1) && send_stream.finished@); // @OBL handshake::listener_sends_exactly_the_preamble [C03,C10,C07] the listener's acknowledgement is exactly the 8-byte version preamble on a fresh unidirectional stream, which is then finished'''),
+              ],
+              spec='''
+    ensures
+        r is Ok ==> r->Ok_0 == connection, // @OBL handshake::returns_the_same_connection [C03] the handshake hands back the very connection it was given (identity unchanged)
+        r is Ok && connection.orig == ConnectionOrigin::Outbound ==> ack_bytes(connection).len() >= 8 && ack_bytes(connection).subrange(0, 8) == preamble(Version::V1), // @OBL handshake::dialer_requires_the_acknowledgement [C03,C10] the dialer reports success only after it has received a valid acknowledgement from the listener: a dialer the listener refuses (never acknowledges) sees its connect fail
+''')
     # ---- caller side: Peer::do_rpc -----------------------------------------------------------------------------
     t += C.item(PEER, 'struct Peer', derives=False, rewrites=[('X5', 'Arc<Config>', 'Config', 1)])
     t += 'impl Peer {\n'
